@@ -63,6 +63,11 @@ def run(ctx: Ctx) -> None:
 
     c08.run(Alias(ctx, "C03.R10", "write failure classes (asyncio: ConnectionError/RuntimeError; trio: BrokenResourceError/ClosedResourceError) are caught around the transport write and turned into protocol.handle(Closed()) (C08.R5)", only={"C08.R5"}))
 
+    c08.run(Alias(ctx, "C03.R11", "every normal exit of both read loops reports Closed to the protocol, which is what produces the application's disconnect message (C08.R4)", only={"C08.R4"}, where=["TCPServer._read_data"]))
+    from . import c04
+
+    c04.run(Alias(ctx, "C03.R12", "closure is absorbed, not raised: no closure-class exception (completed/closed buffer, forgotten stream, h2 stream errors, transport failures) escapes the protocols' stream_send into the application's send (C04.R1 on the stream_send / protocol_send roots)", only={"C04.R1"}, where=["stream_send", "protocol_send", "StreamBuffer"]))
+
     ctx.assume("not decided: interleavings in which a handle() suspended at an await resumes after another task closed the stream (needs schedule exploration); only the structural guard (closed set before the first await) is checked")
     from . import typestate_rules
 
